@@ -1,5 +1,5 @@
 """C02 unit-level drivers: the REAL ParseSections / ParseLines passes on abstract token lists.
-stdin JSON lines {"id","k":"S","items":[[1,level,c]|[0,x],...]} | {"id","k":"L","lines":[[prefix, w],...]}"""
+stdin JSON lines {"id","k":"S","items":[[1,level,c]|[0,x],...]} | {"id","k":"L","lines":[[prefix, w] | [prefix, w, word after a colon],...]}"""
 import json
 import logging
 import sys
@@ -54,8 +54,11 @@ for line in sys.stdin:
             r["out"] = " ".join(sec_sx(t) for t in toks)
         else:
             toks = []
-            for p, w in c["lines"]:
-                toks += [T(type=T.t_item, text=p), T(type=T.t_text, text="w%d" % w), T(type=T.t_newline, text="\n")]
+            for ln in c["lines"]:
+                toks += [T(type=T.t_item, text=ln[0]), T(type=T.t_text, text="w%d" % ln[1])]
+                if len(ln) > 2:           # a top-level colon followed by more text
+                    toks += [T(type=T.t_special, text=":"), T(type=T.t_text, text="w%d" % ln[2])]
+                toks.append(T(type=T.t_newline, text="\n"))
             core.ParseLines(toks, None)
             out = []
             for t in toks:
